@@ -274,6 +274,10 @@ pub fn assemble<S>(
             ("errors", crate::verif::V::B(report.has_errors())),
         ]);
 
+        // Errors that do not stop the resolver
+        // (failed `#assert` directives) must still fail the assembly
+        report.stop_at_errors()?;
+
         output::check_bank_overlap(
             report,
             assembly.decls.as_ref().unwrap(),
